@@ -132,7 +132,7 @@ var (
 	profIDs0   = profile{"id-variants-0", withInvalid(set("A", "A'", "A~")), set("p:A")}
 )
 
-func profilesFor(n int, thorough, quickVec bool) []profile {
+func profilesFor(n int, thorough, quickVec bool, typ kproto.SignedMsgType) []profile {
 	if dbg := os.Getenv("C02_PROFILE"); dbg != "" {
 		for _, p := range []profile{profFull, profEquiv, profIDs, profSimple, profEquiv1, profIDs0} {
 			if p.name == dbg {
@@ -151,8 +151,10 @@ func profilesFor(n int, thorough, quickVec bool) []profile {
 		return []profile{profEquiv, profIDs, profSimple}
 	case thorough:
 		return []profile{profEquiv, profIDs}
-	default:
+	case typ == kproto.PrecommitType:
 		return []profile{profEquiv1, profIDs0}
+	default: // quick, 4 validators, prevote: the larger profile runs for precommits only (same code path plus MakeCommit)
+		return []profile{profIDs0}
 	}
 }
 
@@ -220,13 +222,18 @@ func main() {
 	}
 	reportCommitViolations(fam, cviols)
 
+	commitDone := !r.Expired()
+
+	// ---- E2 on HeightVoteSet (depth 5 on two vectors in thorough, depth 3 on one in quick) ------
+	runHVS()
+
 	// ---- E2: vote sets ------------------------------------------------------------------------
 	maxStates := int64(3_000_000)
 	var jobs []*job
 	for _, vi := range vecs {
 		pw := fam[vi].pw
 		for ti, t := range voteTypes {
-			for _, pr := range profilesFor(len(pw), r.Thorough(), fam[vi].quick) {
+			for _, pr := range profilesFor(len(pw), r.Thorough(), fam[vi].quick, t) {
 				j := newJob(vi, pw, ti, t, universeFor(pw, t), pr.name, pr.kinds, pr.claims)
 				j.cryptoEverywhere = len(pw) <= 2 || (r.Thorough() && len(pw) <= 3)
 				jobs = append(jobs, j)
@@ -265,13 +272,16 @@ func main() {
 	}
 	wg.Wait()
 	var jobLines []string
+	votesetDone := true
 	for i, j := range jobs {
 		s := results[i]
 		if s == nil {
+			votesetDone = false
 			r.NotExhaustive(fmt.Sprintf("deadline before %s profile=%s", j.label(), j.profile))
 			continue
 		}
 		if !s.complete {
+			votesetDone = false
 			r.NotExhaustive(fmt.Sprintf("%s profile=%s stopped at %d states (deadline or state cap)", j.label(), j.profile, s.states))
 		}
 		s.digest()
@@ -300,14 +310,16 @@ func main() {
 	}
 	reportCandidates()
 
-	// ---- E2 on HeightVoteSet (depth 5 on two vectors in thorough, depth 3 on one in quick) ------
-	runHVS()
-
 	// ---- guards -------------------------------------------------------------------------------
+	// Vacuity guards apply to phases that ran to completion (a deadline only makes the run not
+	// exhaustive) and to runs without violations (violating states are not expanded).
+	clean := r.NumViolations() == 0 && len(best) == 0
 	for _, k := range sortedKinds() {
 		c := atomic.LoadInt64(tokenKindCount[k])
 		r.Set("token_"+k, c)
-		r.Require(c > 0, "alphabet token kind "+k+" never executed")
+		if votesetDone && clean {
+			r.Require(c > 0, "alphabet token kind "+k+" never executed")
+		}
 	}
 	r.Add("conflicting_votes_tracked_after_peer_claim", conflictsTracked)
 	r.Add("conflicting_votes_dropped", conflictsDropped)
@@ -315,14 +327,18 @@ func main() {
 	r.Add("duplicate_votes", duplicates)
 	r.Add("invalid_votes_refused", invalidRefused)
 	r.Add("conflicting_peer_claims_refused", claimErrors)
-	r.Require(r.Get("states") > 100, "the vote-set search did not leave the initial state")
-	r.Require(r.Get("states_with_majority") > 0, "no state with a two-thirds majority was reached")
-	r.Require(r.Get("makecommit_verifycommit_checks") > 0, "MakeCommit -> VerifyCommit never ran")
-	r.Require(conflictsTracked > 0 && conflictsDropped > 0, "conflicting votes were never tracked / dropped")
-	r.Require(invalidRefused > 0 && duplicates > 0 && nonDeterministic > 0, "invalid / duplicate / re-signed votes never executed")
-	r.Require(r.Get("boundary_states_exactly_two_thirds_signed") > 0, "no state with exactly 2/3 of the power signed for one block (boundary not forced)")
-	r.Require(r.Get("commit_cases_accepted_by_both") > 0 && r.Get("commit_cases_signed_exactly_two_thirds") > 0, "commit matrix never reached acceptance / the exact 2/3 boundary")
-	r.Require(r.Get("clone_vs_replay_validations") > 0, "clones were never validated against replay")
+	if votesetDone && clean {
+		r.Require(r.Get("states") > 100, "the vote-set search did not leave the initial state")
+		r.Require(r.Get("states_with_majority") > 0, "no state with a two-thirds majority was reached")
+		r.Require(r.Get("makecommit_verifycommit_checks") > 0, "MakeCommit -> VerifyCommit never ran")
+		r.Require(conflictsTracked > 0 && conflictsDropped > 0, "conflicting votes were never tracked / dropped")
+		r.Require(invalidRefused > 0 && duplicates > 0 && nonDeterministic > 0, "invalid / duplicate / re-signed votes never executed")
+		r.Require(r.Get("boundary_states_exactly_two_thirds_signed") > 0, "no state with exactly 2/3 of the power signed for one block (boundary not forced)")
+		r.Require(r.Get("clone_vs_replay_validations") > 0, "clones were never validated against replay")
+	}
+	if commitDone && clean {
+		r.Require(r.Get("commit_cases_accepted_by_both") > 0 && r.Get("commit_cases_signed_exactly_two_thirds") > 0, "commit matrix never reached acceptance / the exact 2/3 boundary")
+	}
 	if n := atomic.LoadInt64(&replayMismatch); n > 0 {
 		fmt.Printf("MACHINERY-ERROR property=C02 %d cloned states differ from a fresh replay of their history\n", n)
 		r.Vacuous("in-package clone diverged from replay")
